@@ -97,5 +97,29 @@ pub fn run(ctx: &Ctx) -> Report {
     let n = sc.len();
     let st = scen_batch(ctx, sc, &[Policy::P0], j);
     rep.part("node kinds x modes x umasks x positions x destinations", st, serde_json::json!({"scenarios": n}));
+    // several nodes handled by concurrent workers: the file-creation mask is process-global state
+    let d = if ctx.quick() { 1 } else { 2 };
+    let mut jobs = vec![];
+    for drv in drivers() {
+        for w in ["2", "3"] {
+            for um in [0o022u32, 0o077] {
+                let tree = vec![
+                    Entry::dir("src"),
+                    Entry::new("src/p1", Kind::Fifo).mode(0o666),
+                    Entry::new("src/p2", Kind::Fifo).mode(0o622),
+                    Entry::new("src/s", Kind::Socket).mode(0o777),
+                    Entry::new("src/c", Kind::Chr(1, 3)).mode(0o666),
+                ];
+                let mut s = Scenario::new(&format!("nodes-concurrent-{}-w{}-u{:o}", drv, w, um), tree, &["-r", "--driver", drv, "-w", w, "src", "dst"]);
+                s.umask = um;
+                let s = std::sync::Arc::new(s);
+                for b in base_specs() {
+                    jobs.push((s.clone(), b, d));
+                }
+            }
+        }
+    }
+    let st = crate::explore::explore(&ctx.pool, jobs, j);
+    rep.part("four nodes copied by concurrent workers, schedule search", st, serde_json::json!({"d": d, "umask": ["022", "077"]}));
     rep
 }
